@@ -1,4 +1,5 @@
 import BddVerif.Lemmas.Transfer
+import BddVerif.Lemmas.RenameCanonical
 /-!
 # C17 — variable renaming and transfer keep the function or refuse
 
@@ -290,6 +291,65 @@ theorem transfer_name_correspondence (tgt src : List String) (htgt : tgt.Nodup) 
     nameMap tgt src x = some j ↔ ∃ nm, src[x]? = some nm ∧ tgt[j]? = some nm :=
   nameMap_eq_some_iff tgt src htgt x j
 
+/-! ## The canonical-form clause
+
+`Canonical A := A = canon (numVars A) (den A)` (`Lemmas/Canonical.lean`; decided by the drivers' `isCanon`,
+`B.isCanon_iff`). Every accepted result of a canonical input is canonical, and it is literally the
+canonical array of the renamed function. -/
+
+/-- a `Kept` result of a canonical array is canonical and is the canonical array of `v ↦ b (v ∘ g)` -/
+theorem kept_canon {b r : Arr} {m : Nat} {g : Nat → Nat} (hk : Kept b r m g) (hc : Canonical b) :
+    Canonical r ∧ r = canon m (fun v => den b (fun x => v (g x))) := by
+  have hcr : Canonical r := canonical_transport hc hk.valid hk.red hk.layout
+  refine ⟨hcr, ?_⟩
+  have h1 : r = canon (numVars r) (den r) := hcr
+  rw [hk.count] at h1
+  calc r = canon m (den r) := h1
+    _ = canon m (fun v => den b (fun x => v (g x))) := by
+      apply canon_congr
+      intro v
+      rw [canonical_den_eq_evalArr hcr, hk.den, canonical_den_eq_evalArr hc]
+
+/-- `set_num_vars(m)` on a canonical diagram whose variables are all below `m`: the result is the
+    canonical array of the same function over `m` variables -/
+theorem set_num_vars_canonical (b : Arr) (m : Nat) (hc : Canonical b) (h : ∀ x ∈ supportSet b, x < m) :
+    setNumVars b m = .ok (setTerm m b) ∧ Canonical (setTerm m b) ∧ setTerm m b = canon m (den b) := by
+  obtain ⟨e, k⟩ := (set_num_vars_safe b m (canonical_wfo hc)).1 h
+  obtain ⟨c1, c2⟩ := kept_canon k hc
+  exact ⟨e, c1, c2⟩
+
+/-- every renaming accepted by `rename_variables` maps a canonical diagram to the canonical array of
+    the renamed function -/
+theorem rename_variables_canonical (b : Arr) (π : VarMap) (hc : Canonical b)
+    (h : Admissible b (applyMap π)) :
+    renameVariables b π = .ok (mapVars (applyMap π) b) ∧ Canonical (mapVars (applyMap π) b) ∧
+    mapVars (applyMap π) b = canon (numVars b) (fun v => den b (fun x => v (applyMap π x))) := by
+  obtain ⟨e, k⟩ := (rename_variables_safe b π (canonical_wfo hc)).1 h
+  obtain ⟨c1, c2⟩ := kept_canon k hc
+  exact ⟨e, c1, c2⟩
+
+/-- the same for `rename_variable(old, new)` -/
+theorem rename_variable_canonical (b : Arr) (old new : Nat) (hc : Canonical b) (h : RenameOk b old new) :
+    renameVariable b old new = .ok (mapVars (fun x => if x = old then new else x) b) ∧
+    Canonical (mapVars (fun x => if x = old then new else x) b) ∧
+    mapVars (fun x => if x = old then new else x) b =
+      canon (numVars b) (fun v => den b (fun x => v (if x = old then new else x))) := by
+  obtain ⟨e, k⟩ := (rename_variable_safe b old new (canonical_wfo hc)).1 h
+  obtain ⟨c1, c2⟩ := kept_canon k hc
+  exact ⟨e, c1, c2⟩
+
+/-- `transfer_from` returning `Some`: the result is canonical in the target set and is the canonical
+    array of the same function under the name correspondence -/
+theorem transfer_canonical (tgt src : List String) (b : Arr) (hc : Canonical b)
+    (hsrc : numVars b ≤ src.length) (h : Transferable tgt src b) :
+    transferFrom tgt b src = .ok (mapVars (fun x => (nameMap tgt src x).getD 0) (setTerm tgt.length b)) ∧
+    Canonical (mapVars (fun x => (nameMap tgt src x).getD 0) (setTerm tgt.length b)) ∧
+    mapVars (fun x => (nameMap tgt src x).getD 0) (setTerm tgt.length b) =
+      canon tgt.length (fun v => den b (fun x => v ((nameMap tgt src x).getD 0))) := by
+  obtain ⟨e, k⟩ := (transfer_some_iff tgt src b (canonical_wfo hc) hsrc).1 h
+  obtain ⟨c1, c2⟩ := kept_canon k hc
+  exact ⟨e, c1, c2⟩
+
 /-! ## Non-vacuity: the hypotheses are satisfiable on concrete, non-trivial values -/
 
 /-- `x0 ∧ x2` over 3 variables (skips level 1) -/
@@ -319,5 +379,12 @@ example : Transferable ["q", "a", "c"] ["a", "b", "c"] ex02 := by
 /-- … refused when the order is reversed or a name is missing -/
 example : ∃ msg, transferFrom ["c", "a"] ex02 ["a", "b", "c"] = .err msg := ⟨_, rfl⟩
 example : ∃ msg, transferFrom ["a", "b"] ex02 ["a", "b", "c"] = .err msg := ⟨_, rfl⟩
+
+/-- `ex02` is canonical, so the canonical-form clause applies to it -/
+theorem ex02_canonical : Canonical ex02 := exX0X2_canonical
+example : Canonical (mapVars (applyMap (varMapOfList [(2, 1), (3, 0)])) ex02) :=
+  (rename_variables_canonical ex02 _ ex02_canonical (by
+    have : supportSet ex02 = [0, 2] := by decide
+    unfold Admissible; rw [this]; decide)).2.1
 
 end B.Props.C17
